@@ -84,6 +84,25 @@ def parse_unit(path, _seen=None):
                 i += 1
                 raw_start = i + 1
                 continue
+            if d.startswith("include-lib "):
+                # another unit's text used as a library: its functions are re-verified but do not count as
+                # obligations of the including unit (props cleared), its canary is dropped
+                flush()
+                inc = os.path.join(ROOT, d[len("include-lib "):].strip())
+                for sg in parse_unit(inc):
+                    if sg[0] == "extract":
+                        sp = dict(sg[1]); sp["props"] = []
+                        segs.append(("extract", sp))
+                    elif sg[0] == "lemma_props":
+                        segs.append(("lemma_props", []))
+                    elif sg[0] == "raw" and sg[2] == "<canary>":
+                        continue
+                    else:
+                        segs.append(sg)
+                segs.append(("lemma_props", []))
+                i += 1
+                raw_start = i + 1
+                continue
             if d.startswith("props "):
                 flush()
                 segs.append(("lemma_props", d.split()[1:]))
@@ -182,6 +201,9 @@ def _parse_extract(lines, i, path):
                     raise UnitError(f"{path}:{i+1}: subst needs two backquoted strings")
                 opt = "optional" in d.split("`")[-1]
                 spec["subst"].append([m[0], m[1], not opt])
+            elif w[0] == "rename_var":
+                close()
+                spec["rename_var"] = [w[1], w[2]]
             elif w[0] == "index":
                 close()
                 spec["index_rewrite"] = BT.findall(d) or w[1:]
